@@ -723,3 +723,37 @@ Proof.
   set (t := Z.max T1 (Z.max T2 T3)).
   rewrite <- (H1 t), <- (H2 t), <- (H3 t) by lia. apply dj_ev.
 Qed.
+
+(** * statements through [ev] (as used by Props/C09.v) *)
+Theorem read_is_step_ev start endt ps total t d : lens_ok ps -> start < t < endt ->
+  amt (read_schedule start endt ps total t) d = amt (ev start ps t) d.
+Proof. intros. rewrite amt_ev. by apply read_is_step. Qed.
+
+Theorem read_is_ev_ev start endt ps total t d : lens_ok ps -> consistent start endt ps total ->
+  start < t -> amt (read_schedule start endt ps total t) d = amt (ev start ps t) d.
+Proof. intros. rewrite amt_ev. by apply read_is_ev. Qed.
+
+Theorem past_count_prefix start endt ps total t d : lens_ok ps -> consistent start endt ps total ->
+  amt (total_amount (firstn (read_past_count start endt ps t) ps)) d
+    = amt (read_schedule start endt ps total t) d.
+Proof.
+  intros Hl [Hc1 Hc2]. unfold read_past_count, read_schedule.
+  destruct (Z.leb_spec t start); [by rewrite take_0, total_amount_nil, amt_empty|].
+  destruct (Z.leb_spec endt t).
+  - by rewrite firstn_all, Hc2.
+  - rewrite count_loop_spec, read_loop_spec, amt_empty by done. cbn [Nat.add]. rewrite evd_prefix by done. lia.
+Qed.
+
+(** the corollary of [disjunct_union] for the read function: after both
+    schedules have started, the merged schedule has released the sum *)
+Theorem disjunct_read_sum sa sb pa pb t d : lens_ok pa -> lens_ok pb -> Z.max sa sb < t ->
+  let '(s, e, ps) := disjunct sa sb pa pb in
+  amt (read_schedule s e ps (cadd (total_amount pa) (total_amount pb)) t) d
+    = amt (read_schedule sa (sa + total_len pa) pa (total_amount pa) t) d
+      + amt (read_schedule sb (sb + total_len pb) pb (total_amount pb) t) d.
+Proof.
+  intros Ha Hb Ht. pose proof (disjunct_lens sa sb pa pb Ha Hb) as Hl. unfold disjunct in *. cbn [snd] in Hl.
+  rewrite !read_is_ev; try done; try lia; try (split; [lia|done]).
+  - apply dj_ev.
+  - split; [rewrite dj_end_len; lia|]. intros d'. by rewrite amt_cadd, dj_total.
+Qed.
